@@ -210,8 +210,8 @@ pub fn run(ctx: &Ctx) {
     ctx.assume("view state is not compared; restricted profiles (see C01) while findings are listed");
     let restricted = ctx.avoid("restricted-profiles");
     let (cases, prefix, walk) = match ctx.tier {
-        Tier::Quick => (16000, 8, 15),
-        Tier::Thorough => (400000, 20, 60),
+        Tier::Quick => (60000, 8, 15),
+        Tier::Thorough => (1500000, 20, 60),
     };
     let enc = |c: &Case| serde_json::to_value(c).unwrap_or(Value::Null);
     if restricted {
